@@ -156,3 +156,56 @@ func VerifC13_RoundTrip() {
 	sym.Cover("round-trip")
 	sym.Assert(verifMsgEq(done.GMessage, &orig), "complete(strip(m), chain(m)) == m")
 }
+
+// VerifC13_SharedCacheRecombination: a long-lived validator first sees (in
+// partial form, optionally completed) a valid message m1; then a recombined
+// message m2 — a correctly signed vote of any shape/value carrying m1's
+// justification — goes through the two-stage path on the same validator.  It
+// must be admitted exactly when one-shot validation by a fresh validator
+// admits it.
+func VerifC13_SharedCacheRecombination() {
+	c := gpbft.VerifNewCommittee()
+	s1, v1 := sym.Choice("first-shape", 9), 1+sym.Choice("first-value", 2)
+	s2, v2 := sym.Choice("second-shape", 9), 1+sym.Choice("second-value", 2)
+	m1 := gpbft.VerifBuildValidAt(c, s1, v1)
+	m2 := gpbft.VerifBuildValidAt(c, s2, v2)
+	if m1.Justification == nil || m2.Justification == nil {
+		sym.Assume(false)
+	}
+	// recombination: m2 keeps its own (correct) signature but carries m1's justification
+	j := *m1.Justification
+	m2.Justification = &j
+	orig2 := *m2
+	oj := *m2.Justification
+	orig2.Justification = &oj
+
+	ctx := context.Background()
+	warm := gpbft.VerifNewValidator(c, false)
+	pmm := &PartialMessageManager{}
+	keep1 := *m1
+	p1, _ := pmm.ToPartialGMessage(m1)
+	pv1, err := warm.PartiallyValidateMessage(ctx, p1)
+	sym.Assert(err == nil, "the valid first message passes partial validation")
+	if err == nil && sym.Bool("complete-first") {
+		verifComplete(pv1.PartialMessage(), keep1.Vote.Value)
+		_, err = warm.FullyValidateMessage(ctx, pv1)
+		sym.Assert(err == nil, "the valid first message passes full validation")
+	}
+	// the second message, two-stage on the warm validator
+	p2, _ := pmm.ToPartialGMessage(m2)
+	var two error
+	pv2, perr := warm.PartiallyValidateMessage(ctx, p2)
+	two = perr
+	if perr == nil {
+		verifComplete(pv2.PartialMessage(), orig2.Vote.Value)
+		_, two = warm.FullyValidateMessage(ctx, pv2)
+	}
+	// ground truth: one-shot validation of the completed message by a fresh validator
+	completed := *p2.GMessage
+	_, one := gpbft.VerifNewValidator(c, false).ValidateMessage(ctx, &completed)
+	sym.Cover("recombined")
+	if one == nil {
+		sym.Cover("recombination-is-valid")
+	}
+	sym.Assert((two == nil) == (one == nil), "two-stage validation on a warm validator admits exactly what one-shot validation admits")
+}
